@@ -47,6 +47,14 @@ esac
 case " $PROPS " in *" C16 "*)
   /venv/bin/python "$ROOT/harness/translate/py2gallina_c16.py" 2> >(grep -v conda >&2) || echo "setup: translator rejected the source (coq/Gen/DensityGen.v is a non-compiling stub)" >&2 ;;
 esac
+# C15 owns coq/Gen/UQGridGen.v (GlobalTrapezoidalGridWeighted.compute_weights / compute_1D_quad_weights of sparseSpACE/Grid.py; theorems in Props/C15gen.v)
+case " $PROPS " in *" C15 "*|*" C15gen "*)
+  /venv/bin/python "$ROOT/harness/translate/py2gallina_c15.py" 2> >(grep -v conda >&2) || echo "setup: translator rejected the source (coq/Gen/UQGridGen.v is a non-compiling stub)" >&2 ;;
+esac
+# C17 owns coq/Gen/DensityReuseGen.v (re-use fragments of sparseSpACE/GridOperation.py; theorems in Props/C17gen.v)
+case " $PROPS " in *" C17 "*)
+  /venv/bin/python "$ROOT/harness/translate/py2gallina_c17.py" 2> >(grep -v conda >&2) || echo "setup: translator rejected the source (coq/Gen/DensityReuseGen.v is a non-compiling stub)" >&2 ;;
+esac
 cd "$ROOT/coq"
 find . -name '*.v' | sed 's|^\./||' | sort > .files.new
 if ! cmp -s .files.new .files || [ ! -f Makefile.coq ]; then
@@ -59,6 +67,7 @@ for p in $PROPS; do
   [ -f Props/$p.v ] && TARGETS="$TARGETS Props/$p.vo"
   [ -f Props/${p}gen.v ] && TARGETS="$TARGETS Props/${p}gen.vo"    # theorems about the source-derived model kept in a file of their own
   [ -f Entry/$p.v ] && TARGETS="$TARGETS Entry/$p.vo"
+  [ -f Entry/${p}gen.v ] && TARGETS="$TARGETS Entry/${p}gen.vo"
 done
 rc=0
 if [ -n "$TARGETS" ]; then
@@ -68,7 +77,9 @@ if [ -n "$TARGETS" ]; then
   [ "$mrc" -ne 0 ] && { echo "setup: make failed (rc=$mrc)" >&2; rc=3; }
   for t in $TARGETS; do test -f "$t" || { echo "setup: $t did not build" >&2; rc=3; }; done
 fi
-for p in $PROPS; do
+DRIVERS=""
+for p in $PROPS; do DRIVERS="$DRIVERS $p"; case "$p" in *gen) ;; *) [ -f Entry/${p}gen.vo ] && DRIVERS="$DRIVERS ${p}gen" ;; esac; done
+for p in $DRIVERS; do
   [ -f Entry/$p.vo ] || continue
   G="$ROOT/ocaml/gen/$p"; mkdir -p "$G"
   if [ ! -x "$ROOT/ocaml/driver_$p" ] || [ Entry/$p.vo -nt "$ROOT/ocaml/driver_$p" ] || [ "$ROOT/ocaml/driver.ml" -nt "$ROOT/ocaml/driver_$p" ]; then
